@@ -716,6 +716,11 @@ func (c *CharSet) addCategory(categoryName string, negate, caseInsensitive bool)
 // Adds to the class any case-equivalence versions of characters already
 // in the class. Used for case-insensitivity.
 func (c *CharSet) addCaseEquivalences() {
+	// the subtracted set has to be case-insensitive as well,
+	// otherwise [a-z-[b]] would still match "B"
+	if c.sub != nil {
+		c.sub.addCaseEquivalences()
+	}
 	// we already have all case equiv
 	if c.anything {
 		return
